@@ -1,52 +1,10 @@
-(** C07 — `FilterId::new` and `Registry::register_filter` for ANY number of attempted per-layer filters.
-
-    `FilterId::new(id: u8)` is `<guard>(id < 64, ..); Self(1 << id as usize)`.  The kind of guard is read off the source on
-    every run (translators/stack_flags.py -> Gen_stack): `assert!` refuses (panics) in every profile, `debug_assert!` only
-    where debug assertions are compiled in.  Where nothing refuses, `1 << id` on a u64 without overflow checks masks the
-    shift amount: the mask is [2 ^ (id mod 64)].  `register_filter` hands out ids 0, 1, 2, .. in on_subscribe order; a
-    refusal (panic) while the stack is built means there is no stack.
-
-    What is proved: in every build profile a stack that is ACCEPTED has at most [64] per-layer filters, their masks
-    are the model's [fid_new 0 .. fid_new (n-1)] (Stack/Model.v: what [build] assigns), each fits in a u64, and any two
-    distinct ones are disjoint - so the bitmap isolation theorems speak about every accepted stack however many layers
-    were attempted.  With the wrapping shift (no refusal) ids 0 and 64 share one mask ([wrapping_aliases]). *)
+(** Stack/IdBound.v - proofs about Stack/IdBoundModel.v (the definitions live there). *)
 From Coq Require Import NArith List Bool Lia.
 From TV Require Import Stack.Model Stack.Spec Stack.Bits.
+From TV Require Export Stack.IdBoundModel.
 From TVGen Require Import Gen_stack.
 Import ListNotations.
 Local Open Scope N_scope.
-
-Inductive profile := Debug | Release.
-
-(** is the bound `id < gen_filter_id_bound` enforced (by a panic) in this profile?  read off the source *)
-Definition bound_checked (p : profile) : bool :=
-  match p with
-  | Debug => gen_filter_id_bound_checked_in_debug
-  | Release => gen_filter_id_bound_checked_in_release
-  end.
-
-(** `FilterId::new`: [None] = refused (panic); unchecked, the u64 shift wraps *)
-Definition fid_new_with (checked : bool) (id : N) : option N :=
-  if id <? gen_filter_id_bound then Some (fid_new id)
-  else if checked then None
-  else Some (fid_new (id mod 64)).
-
-(** `Registry::register_filter`, [n] times starting at `next_filter_id = next`; [None] = the stack is refused *)
-Fixpoint register_from (checked : bool) (next : N) (n : nat) : option (list N) :=
-  match n with
-  | O => Some []
-  | S n' =>
-      match fid_new_with checked next with
-      | None => None
-      | Some m =>
-          match register_from checked (next + 1) n' with
-          | None => None
-          | Some r => Some (m :: r)
-          end
-      end
-  end.
-
-Definition register_n (p : profile) (n : nat) : option (list N) := register_from (bound_checked p) 0 n.
 
 (** * The bound as the source has it *)
 Lemma bound_le_64 : gen_filter_id_bound <= 64.
